@@ -385,7 +385,7 @@ def c03_check(case, markers_any=False):
     except Exception as e:  # noqa: BLE001
         return f'encode raised {type(e).__name__}: {e}'
     try:
-        g2 = penman.decode(s, model=m)
+        g2 = decode_pub(s, m)
     except Exception as e:  # noqa: BLE001
         return f'decode(encode(g)) raised {type(e).__name__}: {e} on {s!r}'
     want = graph_content(g, m)
@@ -552,6 +552,19 @@ def c04_check(case):
     except Exception as e:  # noqa: BLE001
         return f'interpret raised {type(e).__name__}: {e}'
     top, ts, al = ref_read(node, m, noop)
+    # the same reading through the public decoding entry points (text level), with the caller's model
+    try:
+        text = penman.format(Tree(node), indent=None)
+        same = penman.parse(text).node == node
+    except Exception:  # noqa: BLE001
+        same = False
+    if same:
+        try:
+            gp = decode_pub(text, m)
+        except Exception as e:  # noqa: BLE001
+            return f'public decode raised {type(e).__name__}: {e} on {text!r}'
+        if j_graph(gp) != j_graph(g):
+            return f'a public decode entry point reads {text!r} differently from interpret(parse(text), model)'
     if g.top != top:
         return f'top {g.top!r} != {top!r}'
     if g.triples != ts:
@@ -585,11 +598,50 @@ def c04_check(case):
 
 # ======================================================================= C05
 
+def decode_pub(s, m):
+    """decode ONE graph through one of the public entry points (chosen by the text, so a case
+    replays): they must all interpret with the caller's model"""
+    import io
+    import zlib
+    k = zlib.crc32(s.encode('utf-8', 'replace')) % 5
+    if k == 0:
+        return penman.decode(s, model=m)
+    if k == 1:
+        return penman.PENMANCodec(model=m).decode(s)
+    if k == 2:
+        gs = penman.loads(s, model=m)
+    elif k == 3:
+        gs = list(penman.iterdecode(s, model=m))
+    else:
+        gs = penman.load(io.StringIO(s), model=m)
+    if len(gs) != 1:
+        raise AssertionError(f'{len(gs)} graphs decoded from a single-graph text')
+    return gs[0]
+
+
 def c05_gen(rng):
     m = gen.gen_model(rng, custom=False)
     t = gen.gen_tree(rng, wf=True, max_nodes=10, strict=maybe(rng, 0.8))
     return {'tree': j_node(t), 'model': m, 'key': rng.choice(gen.KEYS), 'af': maybe(rng, 0.5),
             'seed': rng.randint(0, 10**6), 'random': maybe(rng, 0.15)}
+
+
+def indep_key(m, names):
+    """the documented ordering keys written independently of penman.model (inverted = ends in -of
+    and is not itself a role of the table; alphanumeric = (name, trailing number))"""
+    def inverted(r):
+        return r.endswith('-of') and not defined_by_spec(m, r)
+
+    def alnum(r):
+        i = len(r)
+        while i > 0 and r[i - 1] in '0123456789':     # ASCII digits only in generated roles
+            i -= 1
+        if i == len(r) or i == 0:
+            return (r, 0)
+        return (r[:i], int(r[i:]))
+    one = {'original': lambda r: True, 'alphanumeric': alnum, 'invertedLast': inverted,
+           'canonical': lambda r: (inverted(r), alnum(r))}
+    return lambda r: [one[n](r) for n in names]
 
 
 def c05_check(case):
@@ -630,7 +682,7 @@ def c05_check(case):
         return 'rearrange changed the graph content'
     if not case.get('random') and case['key'] is not None:
         # sorted by key and stable
-        kf = ops.key_fn(m, case['key'])
+        kf = indep_key(m, case['key']) if model_wf(m) else ops.key_fn(m, case['key'])
         vars_ = {n[0] for n in all_nodes(node)} if case['af'] else set()
         for n_old, n_new in zip(all_nodes(node), sorted(all_nodes(t.node), key=lambda n: [x[0] for x in all_nodes(node)].index(n[0]))):
             rest_new = n_new[1][1:] if n_new[1] and n_new[1][0][0] == '/' else n_new[1]
@@ -1135,6 +1187,19 @@ def c10_check(case):
         want[var] = nv
     if sigma != want:
         return f'names not chosen from the concepts in depth-first order: {sigma!r}, expected {want!r}'
+    # the result depends on the tree's content only, not on what was done to the Tree object before:
+    # a tree that was inspected, re-arranged in place and then relabelled = relabelling a fresh copy
+    # of the re-arranged tree
+    t1 = Tree(copy.deepcopy(node))
+    t1.nodes()
+    penman.format(t1, compact=True)
+    key = m.canonical_order if len(repr(node)) % 2 else m.alphanumeric_order
+    layout.rearrange(t1, key=key, attributes_first=bool(len(old) % 2))
+    t2 = Tree(copy.deepcopy(t1.node))
+    t1.reset_variables(fmt)
+    t2.reset_variables(fmt)
+    if t1.node != t2.node:
+        return f'reset_variables after an in-place rearrange differs from reset_variables on an equal fresh tree: {t1.node!r} vs {t2.node!r}'
     for a, b in zip(old, new):
         if len(a[1]) != len(b[1]):
             return 'shape changed'
@@ -1298,6 +1363,22 @@ def c12_gen(rng):
 def c12_check(case):
     g = py_graph(case['graph'])
     m = py_model(case['model'])
+    # for EVERY marker assignment (also several node contexts for one variable, as a union of
+    # decoded graphs has): indicate_branches keeps every triple, in order, and adds one top-role
+    # triple in front of each triple whose (first) Push names one of its ends
+    if not any(r == m.top_role for _, r, _ in g.triples):
+        firsts = [next((e for e in g.epidata.get(t, []) if isinstance(e, layout.Push)), None) for t in g.triples]
+        if all(p_ is None or p_.variable != t[0] or p_.variable == t[2] or isinstance(t[2], str)
+               for t, p_ in zip(g.triples, firsts)):
+            try:
+                ib = transform.indicate_branches(g, m)
+            except Exception as e:  # noqa: BLE001
+                return f'indicate_branches raised {type(e).__name__}: {e}'
+            if [t for t in ib.triples if t[1] != m.top_role] != g.triples:
+                return 'indicate_branches: removing the top-role triples does not give back the original triples'
+            want_n = sum(1 for t, p_ in zip(g.triples, firsts) if p_ is not None and p_.variable in (t[0], t[2]))
+            if len(ib.triples) - len(g.triples) != want_n:
+                return f'indicate_branches added {len(ib.triples) - len(g.triples)} top-role triples for {want_n} pushing triples'
     if not wf_graph(g, m):
         return None
     if any(not unambiguous(m, r) for _, r, _ in g.triples):
@@ -1339,7 +1420,7 @@ def c12_check(case):
         except Exception as e:  # noqa: BLE001
             return f'after {name}: encode raised {type(e).__name__}: {e}'
         try:
-            back = penman.decode(s, model=m)
+            back = decode_pub(s, m)
         except Exception as e:  # noqa: BLE001
             return f'after {name}: decode raised {type(e).__name__}: {e}'
         if cur.triples and not weakly_connected_to(cur, cur.top):
@@ -1509,6 +1590,26 @@ def c14_check(case):
             layout.appears_inverted(g0, tr)
     except Exception as e:  # noqa: BLE001
         return f'diagnostic on a marker-less graph raised {type(e).__name__}: {e}'
+    # the diagnostics describe the decoded graph: calls that only RETURN something (a tree, a text,
+    # a new graph, a report) in between must not change what they say
+    for name, call in (('reconfigure', lambda: layout.reconfigure(g, model=m, key=m.canonical_order)),
+                       ('configure', lambda: layout.configure(g, model=m)),
+                       ('encode', lambda: penman.encode(g, model=m, indent=None)),
+                       ('reify_attributes', lambda: transform.reify_attributes(g)),
+                       ('errors', lambda: m.errors(g))):
+        try:
+            call()
+            call()
+        except Exception:  # noqa: BLE001
+            pass
+        try:
+            again = layout.node_contexts(g)
+            diag = [(layout.get_pushed_variable(g, tr), layout.appears_inverted(g, tr) if tr[0] != tr[2] else None)
+                    for (tr, c, pushed, inv) in w]
+        except Exception as e:  # noqa: BLE001
+            return f'diagnostic after {name}(g) raised {type(e).__name__}: {e}'
+        if again != ctx or diag != [(pushed, inv if tr[0] != tr[2] else None) for (tr, c, pushed, inv) in w]:
+            return f'the diagnostics of g changed after calling {name}(g)'
     return None
 
 
@@ -1642,7 +1743,8 @@ def c16_cli_gen(rng):
             if maybe(rng, 0.5):
                 parts.append(rng.choice(['(a / alpha :ARG0 (b / beta))', '(x / x :mod 5)', '(a / alpha :op1 "s")']))
             else:
-                parts.append(rng.choice(['(a / alpha :foo (b / beta))', '(a / alpha :ARG0 b :bar 1)', '(c / c :ARG9x d)']))
+                parts.append(rng.choice(['(a / alpha :foo (b / beta))', '(a / alpha :ARG0 b :bar 1)', '(c / c :ARG9x d)',
+                                         '()', '()']))      # the empty graph has only a graph-level error (top is not set)
         files.append('\n\n'.join(parts) + '\n')
     return {'files': files, 'model': 'amr'}
 
@@ -1734,10 +1836,14 @@ def c19_gen(rng):
         s = rng.choice(gen.VARS)
         r = rng.choice(gen.ROLES_PLAIN[:-3] + ['instance', 'ARG0', ':r-of', ':^up', '^down', ':a^b'])
         t = rng.choice(gen.VARS + ['7', '-1.5', 'imperative', '"a b"', '"x, y"', '"p(q)"', '"c ^ d"', '"\\"q\\""', '-',
-                                   '"C:\\\\"', '"C:\\\\"', '"e\\\\\\"f"', '"\\\\"'])
+                                   '"C:\\\\"', '"C:\\\\"', '"e\\\\\\"f"', '"\\\\"', '"a #b"', '"# c"', '"see #5, ^ x"'])
         ts.append([s, r, t])
-    return {'triples': ts, 'indent': maybe(rng, 0.5), 'comma': rng.choice([', ', ',', ' , ', ' ,']),
+    case = {'triples': ts, 'indent': maybe(rng, 0.5), 'comma': rng.choice([', ', ',', ' , ', ' ,']),
             'caret': rng.choice([' ^', '^', ' ^ '])}
+    if maybe(rng, 0.5):
+        # a different spelling at every conjunction sign (glued "^role" and free-standing "^ role" mixed)
+        case['carets'] = [rng.choice([' ^', '^', ' ^ ', '^ ', ' ^\n']) for _ in range(n - 1)]
+    return case
 
 
 def c19_check(case):
@@ -1762,7 +1868,9 @@ def c19_check(case):
     # spacing variants around the comma and the conjunction sign (symbol and string targets)
     if True:
         sep = {' ^': ' ^', '^': '^', ' ^ ': ' ^ '}[case['caret']]
-        v = sep.join(f"{r.lstrip(':')}({s_}{case['comma']}{t})" for s_, r, t in ts)
+        parts = [f"{r.lstrip(':')}({s_}{case['comma']}{t})" for s_, r, t in ts]
+        seps = case.get('carets') or [sep] * (len(parts) - 1)
+        v = parts[0] + ''.join(sp + p_ for sp, p_ in zip(seps, parts[1:]))
         try:
             got = penman.parse_triples(v)
         except Exception as e:  # noqa: BLE001
@@ -1829,18 +1937,18 @@ def c20_domain(text, m, opts):
     except Exception:  # noqa: BLE001
         return None
     for t in trees:
-        if not c02_wf_layout(t.node, m) or not valid_meta(t.metadata):
-            return None
-        g = layout.interpret(t, m)
-        if any(not unambiguous(m, r) for _, r, _ in g.triples):
-            return None
+        tt = t
         if opts.get('canonicalizeRoles'):
+            # the stage collapses over-inverted roles, so the conditions apply to its result
             try:
-                t2 = transform.canonicalize_roles(t, m)
+                tt = transform.canonicalize_roles(Tree(copy.deepcopy(t.node), dict(t.metadata)), m)
             except Exception:  # noqa: BLE001
                 return None
-            if not c02_wf_layout(t2.node, m):
-                return None
+        if not c02_wf_layout(tt.node, m) or not valid_meta(t.metadata):
+            return None
+        g = layout.interpret(tt, m)
+        if any(not unambiguous(m, r) for _, r, _ in g.triples):
+            return None
     return trees
 
 
@@ -2002,7 +2110,9 @@ def snap(x):
 
 def c17_calls(g, h, m, text):
     """list of (name, args, thunk)"""
-    t = layout.configure(g, model=m) if _safe(lambda: layout.configure(g, model=m)) else Tree(('a', []))
+    # the tree argument is built from a COPY: nothing may touch g before its first snapshot
+    gc = copy.deepcopy(g)
+    t = layout.configure(gc, model=m) if _safe(lambda: layout.configure(copy.deepcopy(gc), model=m)) else Tree(('a', []))
     calls = [
         ('decode', [], lambda: snap(penman.decode(text, model=m))),
         ('encode', [g], lambda: penman.encode(g, model=m)),
